@@ -54,6 +54,87 @@ let decode_oracle (_t : BinNums.coq_N) (frame : Byte.byte list) : Packet.packet 
 let canon_pkts (s : string) : string =
   if s = "-" || s = "" then "-" else S.concat "/" (L.map (fun t -> s_of_packet (packet_of_s t)) (split '/' s))
 
+
+(* ---------------------------------------------------------------- scripts (encoder, BaseConn) *)
+let s_of_code (c : BinNums.coq_N) : string =
+  match int_of_n c with 1 -> "src" | 2 -> "closed" | 3 -> "deadline" | 4 -> "carrier" | _ -> "code?"
+
+let bytes_opt (s : string) : Byte.byte list option = if s = "!" then None else Some (bytes_of_hex s)
+
+(* "W<hex|!>/<a|s>" -> (bytes option, async) *)
+let payload_async (t : string) (from : int) =
+  let i = S.rindex t '/' in
+  (bytes_opt (S.sub t from (i - from)), S.sub t (i + 1) (S.length t - i - 1) = "a")
+
+let opt_n (s : string) : BinNums.coq_N option = if s = "-1" || s = "" then None else Some (n_of_string s)
+
+let s_of_eres (r : EncStream.eres) : string = match r with
+  | EncStream.EROk -> "ok" | EncStream.ERErr c -> "e:" ^ s_of_code c | EncStream.EREnc -> "e:decode" | EncStream.ERNone -> "-"
+
+let s_of_cres (r : BaseConn.cres) : string = match r with
+  | BaseConn.CROk -> "ok" | BaseConn.CRErr c -> "e:" ^ s_of_code c | BaseConn.CREnc -> "e:decode"
+  | BaseConn.CRPacket (_, p) -> "p:" ^ s_of_packet p
+  | BaseConn.CRRecvErr e -> "e:" ^ s_of_derr e | BaseConn.CRNone -> "-"
+
+let canon_res (r : string) : string =
+  if S.length r > 2 && S.sub r 0 2 = "p:" then "p:" ^ s_of_packet (packet_of_s (S.sub r 2 (S.length r - 2))) else r
+
+let timer_visible (e : EncStream.estate) : bool =
+  e.EncStream.e_armed && e.EncStream.e_buf <> [] && e.EncStream.e_berr = None
+
+let run_enc (f : string list) : string list * string =
+  let ops = if kv f "ops" = "-" then [] else split ';' (kv f "ops") in
+  let st = ref (EncStream.einit (kv f "delay" = "0") (opt_n (kv f "wleft"))) in
+  let res = L.map (fun t ->
+    match t.[0] with
+    | 'T' ->
+      let vis = timer_visible !st in
+      if (!st).EncStream.e_armed then st := fst (EncStream.enc_step !st EncStream.EvTimer);
+      if vis then "t" else "-"
+    | _ ->
+      let ev = match t.[0] with
+        | 'W' -> let (b, a) = payload_async t 1 in EncStream.EvWrite (b, a)
+        | 'F' -> EncStream.EvFlush
+        | 'X' -> EncStream.EvFail (n_of_int 4)
+        | 'D' -> EncStream.EvDelay (t = "D1")
+        | _ -> failwith ("bad enc op " ^ t) in
+      let (s', r) = EncStream.enc_step !st ev in
+      st := s'; s_of_eres r) ops in
+  (res, match L.rev (!st).EncStream.e_wire with [] -> "-" | ws -> S.concat "," (L.map hex_of_bytes ws))
+
+let run_cn (f : string list) : string list * string * BaseConn.cstate =
+  let ops = if kv f "ops" = "-" then [] else split ';' (kv f "ops") in
+  let stream = bytes_of_hex (kv f "in") in
+  let chunks = cut stream (parse_sizes (kv f "cuts")) in
+  let e = match kv f "inend" with "eof" -> Stream.SEof | "src" -> Stream.SErr (n_of_int 1) | _ -> Stream.SErr (n_of_int 4) in
+  let st = ref (BaseConn.cinit (kv f "delay" = "0") (opt_n (kv f "wleft")) chunks e (n_of_string (kv f "lim"))
+                  (opt_n (kv f "dlleft")) (kv f "dlc" = "1") (kv f "clfail" = "1")) in
+  let step ev = let (s', r) = BaseConn.cn_step Stream.detect_impl decode_oracle !st ev in st := s'; s_of_cres r in
+  let res = L.map (fun t ->
+    match t.[0] with
+    | 'T' ->
+      let vis = timer_visible (!st).BaseConn.c_enc in
+      if (!st).BaseConn.c_enc.EncStream.e_armed then ignore (step BaseConn.CTimer);
+      if vis then "t" else "-"
+    | 'S' ->
+      let d = S.index t '.' in
+      let who = n_of_string (S.sub t 1 (d - 1)) in
+      let (b, a) = payload_async t (d + 1) in
+      step (BaseConn.CSend (who, b, a))
+    | 'R' -> step BaseConn.CReceive
+    | 'C' -> step BaseConn.CClose
+    | 'X' -> step BaseConn.CFailWrites
+    | 'Q' -> step BaseConn.CSetTimeout
+    | 'D' -> step (BaseConn.CDelay (t = "D1"))
+    | _ -> failwith ("bad cn op " ^ t)) ops in
+  (res, (match L.rev (!st).BaseConn.c_enc.EncStream.e_wire with [] -> "-" | ws -> S.concat "," (L.map hex_of_bytes ws)), !st)
+
+let op_class (ops : string) : string =
+  if ops = "-" then "" else S.concat "" (L.map (fun t -> S.make 1 t.[0] ^
+     (if t.[0] = 'W' || t.[0] = 'S' then S.make 1 t.[S.length t - 1] else "")) (split ';' ops))
+
+let skipped = ref 0
+
 let run_c03 path =
   let n = ref 0 and bad = ref 0 in
   let seen = Hashtbl.create 4096 in
@@ -98,8 +179,41 @@ let run_c03 path =
              (if maxc <= 1 then "1" else if maxc <= 5 then "5" else if maxc <= 4091 then "m" else "L")
              (match stream with b :: _ -> string_of_int (int_of_byte b / 16) | [] -> "-") in
          note_class cls
+       | Some (("enc" | "cn" as kind) :: f) ->
+         incr n;
+         if kv obs "spont" = "1" then incr skipped else begin
+           missing_oracle := 0;
+           let (m_res, m_writes) = if kind = "enc" then run_enc f else let (r, w, _) = run_cn f in (r, w) in
+           let i_res = L.map canon_res (split '|' (kv obs "res")) and i_writes = kv obs "writes" in
+           if m_res <> i_res || m_writes <> i_writes || !missing_oracle > 0 then begin
+             incr bad;
+             Printf.printf "diff %s %s model: res=%s writes=%s | impl: res=%s writes=%s\n" k kind
+               (S.concat "|" m_res) m_writes (S.concat "|" i_res) i_writes end;
+           (* class = sequence of (operation kind, result kind), capped *)
+           let oc = op_class (kv f "ops") in
+           let rc = S.concat "" (L.map (fun r -> S.make 1 r.[0]) m_res) in
+           let cap x = if S.length x > 12 then S.sub x 0 12 else x in
+           note_class (kind ^ " " ^ cap oc ^ " " ^ cap rc ^ " d" ^ kv f "delay")
+         end
+       | Some ("wire" :: f) ->
+         incr n;
+         let stream = bytes_of_hex (kv f "stream") in
+         (* frames only: any frame decodes (content was checked by the harness against what was sent) *)
+         let any_decode _ _ = Some Packet.Pingreq in
+         let a = Stream.dec_all Stream.detect_impl any_decode (n_of_int 0) [stream] Stream.SEof in
+         let m_frames = L.length a.Stream.a_frames in
+         let consumed = L.fold_left (fun s (fr, _) -> s + L.length fr) 0 a.Stream.a_frames in
+         let m_partial = L.length stream - consumed in
+         let m_err = s_of_derr a.Stream.a_err in
+         let ok_err = (m_partial = 0 && m_err = "eof") || (m_partial > 0 && m_err = "ueof") in
+         if string_of_int m_frames <> kv obs "frames" || string_of_int m_partial <> kv obs "partial" || not ok_err then begin
+           incr bad;
+           Printf.printf "diff %s wire model: frames=%d partial=%d err=%s | impl: frames=%s partial=%s\n" k m_frames m_partial m_err
+             (kv obs "frames") (kv obs "partial") end;
+         note_class (Printf.sprintf "wire f%d p%d" (min m_frames 40) (if m_partial = 0 then 0 else 1))
        | Some _ -> ())
     | _ -> ()) (read_lines path);
-  Printf.printf "done cases=%d diffs=%d distinct=%d\n" !n !bad !distinct
+  Printf.printf "done cases=%d diffs=%d distinct=%d skipped=%d\n" !n !bad !distinct !skipped
 
 let () = register "c03" run_c03
+let () = register "c19" run_c03
